@@ -262,7 +262,7 @@ def decl_of(kind_or_top, clocked=None):
 
 def run(ck: common.Check, replay=None):
     ck.check_props("C12_Properties.v")
-    n = 40 if ck.tier == "quick" else 600
+    n = 40 if ck.tier == "quick" else 200
     items = []
     for k in range(n):
         net = Net(ck.rng)
